@@ -98,8 +98,11 @@ def reuse_monitor(ctx, n_cases, budget):
 
                     case.gf.importance(engine.key(ci), ChoiceMap.empty(), ra)
                 else:
-                    # a full assignment for the *original* address set (the duplicate shares its value)
-                    vals, _ = _forward_values(rng, case, args)
+                    # a value at every site (the duplicated sites share one address and one value)
+                    vals = {}
+                    for st in node.sites():
+                        for pth, _ in st.paths():
+                            vals.setdefault(pth, engine.sample_site_value(rng, st.dist))
                     case.gf.assess(obs.build_constraint(vals), ra)
                 raised = None
             except Exception as e:  # noqa
